@@ -13,7 +13,7 @@
 (*                     AllowUnresolvable is irrelevant for a valid file    *)
 (* Every transition is emitted as a tour line for property Prop.           *)
 (***************************************************************************)
-EXTENDS SchemaCases, Json
+EXTENDS SchemaInject, SchemaCases, Json
 
 CONSTANTS MaxSteps, Prop
 
